@@ -5,6 +5,7 @@ import (
 	"io"
 	"os"
 	"path/filepath"
+	"time"
 
 	"github.com/syndtr/goleveldb/leveldb"
 
@@ -17,6 +18,41 @@ import (
 // CopyDir copies a LevelDB directory (without its LOCK file): exactly what a `kill -9` at a
 // quiescent interface boundary leaves on disk.
 func CopyDir(src, dst string) error {
+	// LevelDB may still be compacting in the background right after an open: a copy is only a faithful
+	// "as on disk at one instant" snapshot if no file changed while it was taken - retry until stable.
+	var err error
+	for try := 0; try < 50; try++ {
+		before := dirListing(src)
+		_ = os.RemoveAll(dst)
+		if err = copyDirOnce(src, dst); err == nil && before == dirListing(src) {
+			return nil
+		}
+		time.Sleep(4 * time.Millisecond)
+	}
+	if err == nil {
+		err = fmt.Errorf("directory %s kept changing while it was copied", src)
+	}
+	return err
+}
+
+func dirListing(dir string) string {
+	ents, err := os.ReadDir(dir)
+	if err != nil {
+		return "ERR:" + err.Error()
+	}
+	out := ""
+	for _, e := range ents {
+		if e.Name() == "LOCK" || e.Name() == "LOG" || e.Name() == "LOG.old" {
+			continue
+		}
+		if fi, err := e.Info(); err == nil {
+			out += fmt.Sprintf("%s:%d:%d;", e.Name(), fi.Size(), fi.ModTime().UnixNano())
+		}
+	}
+	return out
+}
+
+func copyDirOnce(src, dst string) error {
 	if err := os.MkdirAll(dst, 0o755); err != nil {
 		return err
 	}
@@ -49,6 +85,18 @@ func CopyDir(src, dst string) error {
 
 // DumpLevelDB reads the logical content of a LevelDB directory through a scratch copy.
 func DumpLevelDB(dir string) (map[string][]byte, error) {
+	var m map[string][]byte
+	var err error
+	for try := 0; try < 5; try++ {
+		if m, err = dumpLevelDBOnce(dir); err == nil {
+			return m, nil
+		}
+		time.Sleep(10 * time.Millisecond)
+	}
+	return nil, err
+}
+
+func dumpLevelDBOnce(dir string) (map[string][]byte, error) {
 	tmp := dir + ".dump"
 	_ = os.RemoveAll(tmp)
 	if err := CopyDir(dir, tmp); err != nil {
